@@ -33,14 +33,16 @@ import (
 )
 
 type Scenario struct {
-	Name     string `json:"name"`
-	Callers  int    `json:"callers"`
-	Replies  []int  `json:"replies"`  // per caller: how many copies of its reply the coordinator sends (0 = never answers)
-	Collide  bool   `json:"collide"`  // a phase-two reply is sent with the message id of caller 0's request
-	Close    bool   `json:"close"`    // the connection may drop at any moment (a second one stays)
-	Bound    int    `json:"bound"`    // deviation bound
-	MaxExec  int    `json:"max_exec"` // cap on executions (0 = none)
-	Thorough bool   `json:"thorough"`
+	Name         string `json:"name"`
+	Callers      int    `json:"callers"`
+	Replies      []int  `json:"replies"`       // per caller: how many copies of its reply the coordinator sends (0 = never answers)
+	Collide      bool   `json:"collide"`       // a phase-two reply is sent with the message id of caller 0's request
+	CollideFails bool   `json:"collide_fails"` // ... and its write to the session fails
+	Close        bool   `json:"close"`         // the connection may drop at any moment (a second one stays)
+	FailWrite    int    `json:"fail_write"`    // 1+index of the caller whose request fails on the wire (WritePkg returns an error); 0 = none
+	Bound        int    `json:"bound"`         // deviation bound
+	MaxExec      int    `json:"max_exec"`      // cap on executions (0 = none)
+	Thorough     bool   `json:"thorough"`
 }
 
 func scenarios(thorough bool) []Scenario {
@@ -53,6 +55,8 @@ func scenarios(thorough bool) []Scenario {
 		{Name: "2callers-collide", Callers: 2, Replies: []int{1, 1}, Collide: true, Bound: 1},
 		{Name: "2callers-close", Callers: 2, Replies: []int{1, 1}, Close: true, Bound: 1},
 		{Name: "3callers-reorder", Callers: 3, Replies: []int{1, 1, 1}, Bound: 0},
+		{Name: "2callers-collide-writefail", Callers: 2, Replies: []int{1, 1}, Collide: true, CollideFails: true, Bound: 1},
+		{Name: "2callers-writefail", Callers: 2, Replies: []int{1, 0}, FailWrite: 2, Bound: 2},
 	}
 	if thorough {
 		s = append(s,
@@ -118,9 +122,21 @@ func (s *session) WritePkg(pkg interface{}, _ time.Duration) (int, int, error) {
 	h := s.h
 	h.mu.Lock()
 	if req, ok := msg.Body.(message.GlobalBeginRequest); ok {
+		if h.sc.FailWrite > 0 && req.TransactionName == fmt.Sprintf("caller-%d", h.sc.FailWrite-1) {
+			sched := h.sched
+			h.mu.Unlock()
+			if sched != nil {
+				sched.Point("WritePkg-fails")
+			}
+			return 0, 0, fmt.Errorf("c14: write failed: broken pipe")
+		}
 		h.wire = append(h.wire, &wireReq{id: msg.ID, name: req.TransactionName, sess: s})
 	} else {
 		h.other = append(h.other, fmt.Sprintf("%T id=%d", msg.Body, msg.ID))
+		if _, isReply := msg.Body.(message.BranchCommitResponse); isReply && h.sc.CollideFails {
+			h.mu.Unlock()
+			return 0, 0, fmt.Errorf("c14: write failed: broken pipe")
+		}
 	}
 	sched := h.sched
 	h.mu.Unlock()
@@ -399,7 +415,7 @@ func check(sc Scenario, x execResult) (clause, detail string) {
 		if o.Err == "" && o.Xid != xidFor(name) {
 			return "foreign-reply", d("%s received %q, the reply to another request", name, o.Xid)
 		}
-		if o.Err != "" && !strings.Contains(o.Err, "timeout") && !strings.Contains(o.Err, "closed") {
+		if o.Err != "" && !strings.Contains(o.Err, "timeout") && !strings.Contains(o.Err, "closed") && !strings.Contains(o.Err, "broken pipe") {
 			return "unexpected-error", d("%s: %s", name, o.Err)
 		}
 		if o.Err != "" && strings.Contains(o.Err, "timeout") && !x.fired[x.callerTID[i]] {
@@ -559,7 +575,7 @@ func determinism(r *rep.Run, sc Scenario) {
 
 func Run(r *rep.Run) {
 	thorough := r.Tier == "thorough"
-	r.Rule = "every schedule with at most `bound` deviations (preemptions at the rewriter-inserted scheduling points before/after each channel and sync.Map operation of getty_remoting.go, getty_client.go, client_on_response_processor.go and inside the session's WritePkg; environment events landing before a runnable thread) of N concurrent SendSyncRequest callers on the real remoting client against a fake session; environment events: each reply (1-3 copies per request, or none), each caller's 20 s timer, a phase-two reply under a colliding message id, loss of one of two connections; all orders of environment events at quiescence are explored without bound. Non-trivial = the execution had at least one point with more than one enabled action."
+	r.Rule = "every schedule with at most `bound` deviations (preemptions at the rewriter-inserted scheduling points before/after each channel and sync.Map operation of getty_remoting.go, getty_client.go, client_on_response_processor.go and inside the session's WritePkg; environment events landing before a runnable thread) of N concurrent SendSyncRequest callers on the real remoting client against a fake session; environment events: each reply (1-3 copies per request, or none), each caller's 20 s timer, a phase-two reply under a colliding message id, loss of one of two connections, a request whose write fails; all orders of environment events at quiescence are explored without bound. Non-trivial = the execution had at least one point with more than one enabled action."
 	r.Assume = []string{"scheduling points are the rewriter-inserted ones plus environment seams; code between two points runs atomically with respect to other controlled threads", "time is virtual: a timer fires only when the scheduler chooses it"}
 	sys.InitClient()
 	quiet.Spin(nil, 5) // let the client's background goroutines reach their idle waits
